@@ -26,6 +26,7 @@ def run(ctx):
     from . import libtables as _lt
     ctx.rule("C13-exports-only", "only exported names leave the library, under their external names")
     d_def = _lt.rule_definition(ctx, "C13-fresh-env", "C13-exports-only")
+    _lt.rule_statement(ctx, "C13-exports-only")       # what one body statement (definition, syntax definition) writes, and where
     def _old_env():
         news = [(b, t) for b, t in eld.calls() if callee_matches(t, "environment::LexicalScope::new")]
         loops = eld.loop_blocks()
